@@ -666,18 +666,36 @@ package orda
 //@   ensures result != nil && fresh(result) && result.mapSnapshot != nil && fresh(result.mapSnapshot) && result.mapSnapshot.Map != nil && fresh(result.mapSnapshot.Map) && (forall k string :: !(k in result.mapSnapshot.Map)) && result.jsonType != nil
 //@   modifies alloc
 
+//   sortedAsc(s)      the strings of s are strictly ascending
+//   objKind(v)        v is a Go map of any type (reflect.Map is 21)
+//
+//@ pred sortedAsc(s []string) = forall i int, j int :: {s[i], s[j]} 0 <= i && i < j && j < len(s) ==> strlt(s[i], s[j])
+
+//@ func sortedKeys
+//@   trusted sort.Strings returns a sorted permutation, and the keys of a Go map are distinct
+//@   mode math
+//@   ensures[ascending] sortedAsc(result)
+//@   ensures[only-keys] forall i int :: {result[i]} 0 <= i && i < len(result) ==> result[i] in m
+//@   modifies alloc
+
+//@ func toStringKeyedMap
+//@   trusted copies the map by reflection
+//@   mode math
+//@   ensures result != nil && fresh(result)
+//@   modifies alloc
+
 //@ func (*jsonPrimitive).createJSONObject
 //@   mode math
 //@   props C01 C03
-//@   uses mapKind
 //@   requires its.common != nil && ts != nil && allocated(ts) && value != nil
 //@   loop 0 invariant[new-object] jo != nil && jo.mapSnapshot != nil && jo.mapSnapshot.Map != nil && ts.Delimiter > old(ts.Delimiter)
+//@   loop 0 invariant[keys-ascending] sortedAsc(rangeover) && rangeindex < len(rangeover)
 //@   loop 1 invariant[struct-fields] jo != nil && jo.mapSnapshot != nil && jo.mapSnapshot.Map != nil
-//@   loop 0 invariant[c-visited] forall k string :: k in jo.mapSnapshot.Map ==> visited(k) && jo.mapSnapshot.Map[k] != nil
+//@   loop 0 invariant[c-below-the-next-key] forall k string :: k in jo.mapSnapshot.Map ==> jo.mapSnapshot.Map[k] != nil && (rangeindex + 1 < len(rangeover) ==> strlt(k, rangeover[rangeindex + 1]))
 //@   loop 0 invariant[c-alloc-wrapper] forall k string :: k in jo.mapSnapshot.Map ==> allocated(jo.mapSnapshot.Map[k].(as *jsonObject))
 //@   loop 0 invariant[c-alloc-prim] forall k string :: k in jo.mapSnapshot.Map ==> allocated(primOf(jo.mapSnapshot.Map[k].(as jsonType)))
 //@   loop 0 invariant[c-time] forall k string :: k in jo.mapSnapshot.Map ==> primOf(jo.mapSnapshot.Map[k].(as jsonType)).C != nil && primOf(jo.mapSnapshot.Map[k].(as jsonType)).C != ts && allocated(primOf(jo.mapSnapshot.Map[k].(as jsonType)).C)
 //@   loop 0 invariant[c-below-the-counter] forall k string :: k in jo.mapSnapshot.Map ==> childDelim(jo, k) < ts.Delimiter
 //@   loop 0 invariant[numbered-in-key-order] forall k1 string, k2 string :: k1 in jo.mapSnapshot.Map && k2 in jo.mapSnapshot.Map && strlt(k1, k2) ==> childDelim(jo, k1) < childDelim(jo, k2)
-//@   ensures[children-numbered-in-key-order] result != nil && (value.(map[string]interface{}) ==> forall k1 string, k2 string :: k1 in result.mapSnapshot.Map && k2 in result.mapSnapshot.Map && strlt(k1, k2) ==> childDelim(result, k1) < childDelim(result, k2))
+//@   ensures[children-numbered-in-key-order] result != nil && (kindOf(value) == 21 ==> forall k1 string, k2 string :: k1 in result.mapSnapshot.Map && k2 in result.mapSnapshot.Map && strlt(k1, k2) ==> childDelim(result, k1) < childDelim(result, k2))
 //@   modifies *
